@@ -78,9 +78,6 @@ func PublicAPI(t *testing.T, a *API) {
 		ver := ref.NewVerifier(p, rpk)
 		pk, sk := a.NewKeyFromSeed(&seed)
 		kid := fmt.Sprintf("key/%d", si)
-		if !r.Want(kid) {
-			return
-		}
 		r.Eval(1)
 		r.Distinct("key", si)
 		if !bytes.Equal(mustBytes(t, pk), rpk) || !bytes.Equal(mustBytes(t, sk), rsk) {
